@@ -5,7 +5,8 @@
               hence the complementary projector has rank D - |UPB|; its partial transposes are again complements of
               orthonormal product sets (a (x) conj b), so it is PPT - MC_UPB states this as the model theorem.
      closed : closed-form REE / EOF / GME of Werner and isotropic states: exactly zero on the separable range
-              (alpha <= 1/d resp. alpha <= 1/(d+1), end point included), strictly positive outside. *)
+              (alpha <= 1/d resp. alpha <= 1/(d+1), end point included), strictly positive outside;
+     closed_near : the same closed forms within 2^-10 .. 2^-50 of the threshold, on both sides. *)
 EXTENDS Rat, TLC, Json, IOUtils, FiniteSets
 Events == JsonDeserialize(IOEnv.TRACE_FILE)
 VARIABLE l
@@ -23,7 +24,13 @@ ClosedOK(e) == LET a == R(e.num, e.den)  sep == IF e.family = "Werner" THEN SepW
    /\ e.finite
    /\ sep => e.zero
    /\ ~sep => (~e.zero /\ e.positive)
-Valid(e) == CASE e.op = "upb" -> UpbOK(e) [] e.op = "closed" -> ClosedOK(e) [] OTHER -> FALSE
+\* the neighbourhood of the threshold: alpha = fl(threshold) + k / 2^e with 10 <= e <= 50 (|fl(t) - t| <= 2^-55, so the side of the
+\* threshold is the sign of k).  On the separable side the value is exactly zero; on the entangled side it is finite, not
+\* negative (beyond rounding) and - the closed forms are monotone in alpha - not above the value at threshold + 1/100.
+ClosedNearOK(e) == /\ e.k # 0 /\ e.e >= 10 /\ e.e <= 50 /\ e.finite
+                   /\ e.k < 0 => e.zero
+                   /\ e.k > 0 => e.nonneg /\ e.below
+Valid(e) == CASE e.op = "upb" -> UpbOK(e) [] e.op = "closed" -> ClosedOK(e) [] e.op = "closed_near" -> ClosedNearOK(e) [] OTHER -> FALSE
 Init == l = 1 /\ TLCSet(1, 0)
 Next == /\ l <= Len(Events)
         /\ IF Valid(Events[l]) THEN TLCSet(1, TLCGet(1) + 1) ELSE PrintT(<<"REJECT", l, Events[l].op>>)
